@@ -33,6 +33,41 @@ func c16Eval(e ast.Expr, what string) int64 {
 	return v
 }
 
+// `N * time.Second`, `time.Second`, `N * time.Millisecond` in milliseconds
+func c16DurMs(e ast.Expr, what string) int64 {
+	unit := func(x ast.Expr) int64 {
+		if s, ok := x.(*ast.SelectorExpr); ok {
+			if id, ok := s.X.(*ast.Ident); ok && id.Name == "time" {
+				switch s.Sel.Name {
+				case "Second":
+					return 1000
+				case "Millisecond":
+					return 1
+				case "Minute":
+					return 60000
+				}
+			}
+		}
+		return 0
+	}
+	if u := unit(e); u > 0 {
+		return u
+	}
+	if be, ok := e.(*ast.BinaryExpr); ok && be.Op == token.MUL {
+		for _, p := range [][2]ast.Expr{{be.X, be.Y}, {be.Y, be.X}} {
+			if bl, ok := p[0].(*ast.BasicLit); ok && bl.Kind == token.INT {
+				var v int64
+				fmt.Sscan(bl.Value, &v)
+				if u := unit(p[1]); u > 0 {
+					return v * u
+				}
+			}
+		}
+	}
+	die("%s: not a literal duration", what)
+	return 0
+}
+
 func genC16() {
 	fset, f := parseFile("syncer/replica.go")
 	var calls []string
@@ -196,6 +231,198 @@ func genC16() {
 	}
 	facts["c16_cmd"] = cmdFacts
 
+	// the shape of the runCluster state machine (lean/GunYu/Model/Handover.lean): every
+	// statement of the loop that moves the role, creates / stops a syncer, calls the election
+	// or pauses, in source order; the ticker; what the end of a syncer does to its channel;
+	// the order in which a leader syncer closes its ends; the follower's pause on a role error
+	var rc []string
+	pauses := map[string]int64{}
+	{
+		fset4, f4 := parseFile("cmd/syncer.go")
+		for _, d := range f4.Decls {
+			fd, ok := d.(*ast.FuncDecl)
+			if !ok || fd.Body == nil {
+				continue
+			}
+			switch fd.Name.Name {
+			case "runCluster":
+				var lastIf string
+				ast.Inspect(fd.Body, func(n ast.Node) bool {
+					switch x := n.(type) {
+					case *ast.ForStmt:
+						rc = append(rc, "runCluster: for "+c12Render(fset4, x.Cond))
+					case *ast.IfStmt:
+						c := c12Render(fset4, x.Cond)
+						if strings.Contains(c, "role") || strings.Contains(c, "err") || strings.Contains(c, "Err") {
+							rc = append(rc, "runCluster: if "+c)
+							lastIf = c
+						}
+					case *ast.BranchStmt:
+						rc = append(rc, "runCluster: "+x.Tok.String())
+					case *ast.ReturnStmt:
+						rc = append(rc, "runCluster: return")
+					case *ast.AssignStmt:
+						txt := c12Render(fset4, x)
+						if strings.Contains(txt, "sc.clusterCampaign(") || strings.HasPrefix(txt, "role =") || strings.Contains(txt, "syncer.NewSyncer(") ||
+							strings.Contains(txt, "elect.Resign(") || strings.Contains(txt, "elect.Leader(") || strings.Contains(txt, "sy.RunLeader()") ||
+							strings.Contains(txt, "sy.RunFollower(") || strings.Contains(txt, "syncerWait.Error()") || strings.Contains(txt, "NewWaitCloserFromParent(") ||
+							strings.HasPrefix(txt, "err = errors.Join(") {
+							rc = append(rc, "runCluster: "+txt)
+						}
+					case *ast.ExprStmt:
+						txt := c12Render(fset4, x)
+						if strings.HasPrefix(txt, "runWait.Sleep(") || strings.HasPrefix(txt, "time.Sleep(") {
+							call := x.X.(*ast.CallExpr)
+							ms := c16DurMs(call.Args[0], "runCluster pause")
+							key := "other"
+							switch {
+							case strings.Contains(lastIf, "ErrLeaderHandover"):
+								key = "handover"
+							case strings.Contains(lastIf, "ErrLeaderTakeover"):
+								key = "takeover"
+							case strings.Contains(lastIf, "role == cluster.RoleCandidate"):
+								key = "candidate"
+							case strings.Contains(lastIf, "ErrBreak"):
+								key = "other"
+							}
+							if old, dup := pauses[key]; dup && old != ms {
+								die("runCluster: two different pauses for %s", key)
+							}
+							pauses[key] = ms
+							rc = append(rc, fmt.Sprintf("runCluster: %s [%s %d ms]", txt, key, ms))
+						} else if strings.HasPrefix(txt, "sy.Stop(") || strings.HasPrefix(txt, "syncerWait.WgWait(") || strings.HasPrefix(txt, "syncerWait.Close(") ||
+							strings.HasPrefix(txt, "sc.clusterTicker(") || strings.HasPrefix(txt, "runWait.Close(") || strings.HasPrefix(txt, "sc.setSyncer(") ||
+							strings.HasPrefix(txt, "sc.delSyncer(") || strings.HasPrefix(txt, "usync.SafeGo(") {
+							if strings.HasPrefix(txt, "usync.SafeGo(") {
+								txt = "usync.SafeGo(…)"
+							}
+							rc = append(rc, "runCluster: "+txt)
+						}
+					}
+					return true
+				})
+			case "clusterTicker":
+				ast.Inspect(fd.Body, func(n ast.Node) bool {
+					switch x := n.(type) {
+					case *ast.IfStmt:
+						rc = append(rc, "clusterTicker: if "+c12Render(fset4, x.Cond))
+					case *ast.ReturnStmt:
+						rc = append(rc, "clusterTicker: "+c12Render(fset4, x))
+					case *ast.CaseClause, *ast.CommClause:
+						txt := c12Render(fset4, x)
+						if i := strings.Index(txt, ":"); i > 0 {
+							rc = append(rc, "clusterTicker: "+txt[:i+1])
+						}
+					case *ast.AssignStmt:
+						txt := c12Render(fset4, x)
+						if strings.HasPrefix(txt, "ticker := time.NewTicker(") || strings.HasPrefix(txt, "role, err := sc.clusterCampaign(") {
+							rc = append(rc, "clusterTicker: "+txt)
+						}
+						if call, ok := x.Rhs[0].(*ast.CallExpr); ok && len(call.Args) == 2 && strings.HasPrefix(txt, "err := util.Retry(") {
+							rc = append(rc, "clusterTicker: util.Retry(renew, "+c12Render(fset4, call.Args[1])+")")
+						}
+					case *ast.ExprStmt:
+						if txt := c12Render(fset4, x); strings.HasPrefix(txt, "wait.Close(") {
+							rc = append(rc, "clusterTicker: "+txt)
+						}
+					}
+					return true
+				})
+			case "clusterCampaign", "clusterRenew":
+				nm := fd.Name.Name
+				ast.Inspect(fd.Body, func(n ast.Node) bool {
+					if x, ok := n.(*ast.AssignStmt); ok {
+						if txt := c12Render(fset4, x); strings.Contains(txt, "elect.") {
+							rc = append(rc, nm+": "+txt)
+						}
+					}
+					return true
+				})
+			}
+		}
+		fset5, f5 := parseFile("syncer/syncer.go")
+		for _, d := range f5.Decls {
+			fd, ok := d.(*ast.FuncDecl)
+			if !ok || fd.Body == nil {
+				continue
+			}
+			switch {
+			case fd.Name.Name == "NewSyncer":
+				ast.Inspect(fd.Body, func(n ast.Node) bool {
+					if x, ok := n.(*ast.AssignStmt); ok {
+						if txt := c12Render(fset5, x); strings.HasPrefix(txt, "sy.channel =") || strings.HasPrefix(txt, "sy.wait =") {
+							rc = append(rc, "NewSyncer: "+txt)
+						}
+					}
+					return true
+				})
+			case fd.Recv != nil && fd.Name.Name == "run":
+				for _, st := range fd.Body.List {
+					if df, ok := st.(*ast.DeferStmt); ok {
+						ast.Inspect(df, func(n ast.Node) bool {
+							if x, ok := n.(*ast.ExprStmt); ok {
+								if txt := c12Render(fset5, x); strings.Contains(txt, "Close(") {
+									rc = append(rc, "syncer.run: defer … "+txt)
+								}
+							}
+							return true
+						})
+					}
+				}
+			case fd.Recv != nil && (fd.Name.Name == "runLeader" || fd.Name.Name == "Stop"):
+				nm := fd.Name.Name
+				for _, st := range fd.Body.List {
+					if x, ok := st.(*ast.ExprStmt); ok {
+						txt := c12Render(fset5, x)
+						if strings.HasPrefix(txt, "<-") || strings.Contains(txt, ".Stop()") || strings.Contains(txt, ".Close(") || strings.Contains(txt, "WgWait(") ||
+							strings.Contains(txt, ".Start()") {
+							rc = append(rc, "syncer."+nm+": "+txt)
+						}
+						if strings.HasPrefix(txt, "usync.SafeGo(") {
+							rc = append(rc, "syncer."+nm+": go input.Run")
+						}
+					}
+				}
+			}
+		}
+		// ReplicaFollower.Run: the pause before a role / break error is returned
+		fset6, f6 := parseFile("syncer/replica.go")
+		for _, d := range f6.Decls {
+			fd, ok := d.(*ast.FuncDecl)
+			if !ok || fd.Body == nil || fd.Recv == nil || fd.Name.Name != "Run" {
+				continue
+			}
+			ast.Inspect(fd.Body, func(n ast.Node) bool {
+				x, ok := n.(*ast.IfStmt)
+				if !ok {
+					return true
+				}
+				c := c12Render(fset6, x.Cond)
+				if !strings.Contains(c, "ErrRole") {
+					return true
+				}
+				rc = append(rc, "ReplicaFollower.Run: if "+c)
+				for _, st := range x.Body.List {
+					txt := c12Render(fset6, st)
+					rc = append(rc, "ReplicaFollower.Run:   "+txt)
+					if es, ok := st.(*ast.ExprStmt); ok && strings.Contains(txt, ".Sleep(") {
+						pauses["rolerr"] = c16DurMs(es.X.(*ast.CallExpr).Args[0], "ReplicaFollower.Run pause")
+					}
+				}
+				return true
+			})
+		}
+	}
+	for _, k := range []string{"handover", "takeover", "candidate", "other", "rolerr"} {
+		if _, ok := pauses[k]; !ok {
+			die("runCluster / ReplicaFollower.Run: the %s pause was not found", k)
+		}
+	}
+	if pauses["takeover"] != pauses["other"] || pauses["candidate"] != pauses["other"] {
+		die("runCluster: the take-over, candidate and other-error pauses differ (the model has one `pauseOther`)")
+	}
+	facts["c16_runcluster"] = rc
+
 	// numeric response codes
 	_, pf := parseFile("pkg/api/golang/api.pb.go")
 	codes := map[string]int64{}
@@ -241,6 +468,12 @@ func genC16() {
 	b.WriteString("/-- pkg/api/golang/api.pb.go SyncResponse_Code values (META, CONTINUE, HANDOVER, CLEAR, FAULT, ERROR, FAILURE) -/\n")
 	fmt.Fprintf(&b, "def replicaCodes : List Nat := [%d, %d, %d, %d, %d, %d, %d]\n\n", codes["META"], codes["CONTINUE"], codes["HANDOVER"],
 		codes["CLEAR"], codes["FAULT"], codes["ERROR"], codes["FAILURE"])
+	b.WriteString("/-- cmd/syncer.go runCluster: `runWait.Sleep(…)` after a hand-over, in ms -/\n")
+	fmt.Fprintf(&b, "def handoverPauseMs : Nat := %d\n\n", pauses["handover"])
+	b.WriteString("/-- cmd/syncer.go runCluster: the pause after a take-over, after another error and of a candidate that stays candidate, in ms -/\n")
+	fmt.Fprintf(&b, "def otherPauseMs : Nat := %d\n\n", pauses["other"])
+	b.WriteString("/-- syncer/replica.go ReplicaFollower.Run: `rf.wait.Sleep(…)` before a role / break error is returned, in ms -/\n")
+	fmt.Fprintf(&b, "def roleErrorPauseMs : Nat := %d\n\n", pauses["rolerr"])
 	b.WriteString("end GunYu.Gen\n")
 	writeIfChanged(*out+"/ReplicaConsts.lean", b.String())
 }
